@@ -411,7 +411,7 @@ def run_check(prop_id, tier, seed):
     log(f"[{prop_id}] build: obligations={b.get('obligations')} proof_broken={len(b['proof_broken'])} translator_broken={len(b['translator_broken'])}")
 
     # the hand-transcribed source functions moved?  then search harder (never a verdict by itself)
-    moved = fingerprint.changed(REPO, prop_id, getattr(prop, "SOURCE_FUNCS", []))
+    moved = fingerprint.changed(REPO, prop_id, fingerprint.funcs_of(prop))
     gen_tier = tier
     if moved and tier == "quick" and os.environ.get("VERIF_NO_ESCALATE") != "1":
         gen_tier = "thorough"
@@ -550,7 +550,7 @@ def run_check(prop_id, tier, seed):
             "print_assumptions": b.get("assumptions", {}),
             "coqchk": coqchk,
             "translator_constructs": getattr(prop, "TABLE_CONSTRUCTS", []),
-            "modelled_source_functions": [f"{a}::{b}" for a, b in getattr(prop, "SOURCE_FUNCS", [])],
+            "modelled_source_functions": [f"{a}::{b}" for a, b in fingerprint.funcs_of(prop)],
             "modelled_source_functions_changed_since_baseline": moved,
             "evaluations": sum(len(c.get("_obs", [])) for c in cases + ecases),
             "histories": len(cases), "corpus_histories": len(corpus), "enumerated_cases": enum_n,
